@@ -267,7 +267,7 @@ type GenOpts struct {
 }
 
 var nameStems = []string{"f%d.dat", "data%d.bin", "sub/f%d", "sub/deep/er/f%d.x", "with space %d.txt", "UPPER%d.DAT", "d%d/file", "a-%d_b.c.d", "v1..%d.dat", "rel..%d/data.bin", "wait...%d", "win\\f%d.dat", "a\\..\\b%d", "trail%d ", "dot%d.", "n%d", "abcdefg%d"}
-var par1Stems = []string{"f%d.dat", "data%d.bin", "with space %d.txt", "héllo%d.txt", "日本%d", "\U0001F600%d.bin", "UPPER%d.DAT", "clip%d-\U0001F600", "%d\U00010348\U0001F4BE", "x%dé"}
+var par1Stems = []string{"f%d.dat", "data%d.bin", "with space %d.txt", "héllo%d.txt", "日本%d", "\U0001F600%d.bin", "UPPER%d.DAT", "clip%d-\U0001F600", "%d\U00010348\U0001F4BE", "x%dé", "v1..%d.dat", "wait...%d", "..%d", "dot%d."}
 // (the last ones contain an archive extension or a volume-like part
 // inside the name)
 var baseNames = []string{"set", "my set", "archive.v1", "x", "Set-2_b", "backup.part1", "x.par2", "a.vol01+02", "old.p01.new"}
@@ -373,6 +373,24 @@ func GenWorld(r *Run, o GenOpts) *World {
 			if tw != prev && !used {
 				name = tw
 				r.Probe("names-differing-only-in-case")
+			}
+		}
+		if i > 0 && !o.Par1 && !o.NoSubdirs && t.Bool(1, 12, "same-base-name") {
+			// the previous file's base name again, in another directory
+			prev := w.Files[i-1].Name
+			cand := fmt.Sprintf("nest%d/%s", i, filepath.Base(prev))
+			if strings.Contains(prev, "/") && t.Bool(1, 2, "flat") {
+				cand = filepath.Base(prev)
+			}
+			used := false
+			for _, f := range w.Files {
+				if f.Name == cand {
+					used = true
+				}
+			}
+			if !used && !strings.Contains(prev, "\\") {
+				name = cand
+				r.Probe("protected-files-sharing-a-base-name")
 			}
 		}
 		var size int
@@ -550,6 +568,25 @@ func GenWorld(r *Run, o GenOpts) *World {
 					r.Probe("bystander-at-slash-translated-path")
 				}
 			}
+		}
+	}
+	// an unrelated file beside the index (or in another directory of the
+	// tree) with the same base name as a protected file in a sub-directory
+	if !o.Par1 && t.Bool(1, 6, "same-base-name-bystander") {
+		for _, f := range w.Files {
+			if !strings.Contains(f.Name, "/") {
+				continue
+			}
+			cands := []string{filepath.Join(w.Dir, filepath.Base(f.Name)), filepath.Join(w.Dir, "other", filepath.Base(f.Name))}
+			p := cands[t.Draw(2, "where")]
+			if _, exists := w.Disk.Get(p); exists || w.isProtectedPath(p) {
+				continue
+			}
+			data := expandContent(ckText, 53, 34, 4)
+			w.Bystanders[p] = data
+			w.Disk.Put(p, data)
+			r.Probe("bystander-with-base-name-of-nested-file")
+			break
 		}
 	}
 	// unrelated files whose names extend a protected file's or an archive
